@@ -184,9 +184,12 @@ DirIns(ctx, e) ==
               mt |-> IF e.fi.mt # 0 THEN e.fi.mt ELSE ctx.pmt, tag |-> e.tag, size |-> 0]]>>
 
 (* symlink / ghost / doc-like / changelog: src is kept literally (cleaned); *)
-(* a doc-like entry whose source is a file takes missing attributes from it *)
+(* a doc-like entry whose source is a file (possibly through a symbolic link) takes missing attributes from it *)
+\* the regular file a source path names, directly or through a symbolic link (os.Stat follows it)
+StatFile(tree, p) ==
+  { n \in tree : n.kind = "file" /\ (NodePath(n) = p \/ \E l \in tree : l.kind = "link" /\ NodePath(l) = p /\ l.rt # "" /\ l.rt = n.p) }
 LeafIns(ctx, e) ==
-  LET nodes == { n \in ctx.tree : n.kind = "file" /\ NodePath(n) = CleanRel(e.src) }
+  LET nodes == StatFile(ctx.tree, CleanRel(e.src))
       has == e.type \in {"doc", "licence", "license", "readme", "debian changelog"} /\ nodes # {}
       n == CHOOSE x \in nodes : TRUE
   IN
